@@ -36,5 +36,9 @@ with open('/verif/seeded/RESULTS.md','w') as f:
     for r in rows: f.write("| %s | %s | %s | %s |\n"%r)
     n=len(rows); d=sum(1 for r in rows if 'DETECTED' in r[2])
     f.write("\n%d of %d caught by the property's check.\n"%(d,n))
-print(open('/verif/seeded/RESULTS.md').read()[-400:])
+tbl="| id | change | detection | failing assert ids (first) |\n|---|---|---|---|\n"+"".join("| %s | %s | %s | %s |\n"%r for r in rows)+"\n%d of %d seeded changes are caught by the property's own check.\n"%(d,n)
+D=open('/verif/DESIGN.md').read()
+a=D.index('<!-- SEEDTABLE BEGIN -->')+len('<!-- SEEDTABLE BEGIN -->'); b=D.index('<!-- SEEDTABLE END -->')
+open('/verif/DESIGN.md','w').write(D[:a]+"\n"+tbl+D[b:])
+print(open('/verif/seeded/RESULTS.md').read()[-300:])
 PY
